@@ -7,9 +7,10 @@ import DitModel.Drv.Simplex
 import DitModel.Drv.Info
 import DitModel.Drv.Constr
 import DitModel.Drv.Diverge
+import DitModel.Drv.Pid
 open Dit Dit.Drv
 
-def handlers : List (String × (J → Option J)) := basicHandlers ++ simplexHandlers ++ infoHandlers ++ opsHandlers ++ constrHandlers ++ divergeHandlers
+def handlers : List (String × (J → Option J)) := basicHandlers ++ simplexHandlers ++ infoHandlers ++ opsHandlers ++ constrHandlers ++ divergeHandlers ++ pidHandlers
 
 def answer (line : String) : String :=
   let line := line.trimAscii.toString
